@@ -297,142 +297,6 @@ func isPermMatrix(m [][]*big.Int) bool {
 	return true
 }
 
-func c15Forged(t *rapid.T, ev *evProp) {
-	e := genShufEnv(t, 2, 6)
-	g, q := e.gi.G, e.gi.Order
-	k := len(e.X)
-	// M: the linear relation X_j = sum_i M_ij Xbar_i - t_j G claimed between input and output
-	kind := rapid.SampledFrom([]string{"sum", "scalar-multiple", "shear", "random-invertible"}).Draw(t, "mkind")
-	M := make([][]*big.Int, k)
-	for i := range M {
-		M[i] = make([]*big.Int, k)
-		for j := range M[i] {
-			M[i][j] = big.NewInt(0)
-		}
-	}
-	perm := rapid.Permutation(seqInts(k)).Draw(t, "perm")
-	for i := range M {
-		M[i][perm[i]] = big.NewInt(1)
-	}
-	a, b := rapid.IntRange(0, k-1).Draw(t, "a"), 0
-	b = (a + 1 + rapid.IntRange(0, k-2).Draw(t, "b")) % k
-	switch kind {
-	case "sum":
-		M[a][perm[b]] = big.NewInt(1) // row a now selects two inputs
-	case "scalar-multiple":
-		M[a][perm[a]] = big.NewInt(int64(rapid.IntRange(2, 9).Draw(t, "c")))
-	case "shear":
-		c, _ := genBig(t, q, "c")
-		if c.Sign() == 0 {
-			c = big.NewInt(3)
-		}
-		M[a][perm[b]] = c
-	case "random-invertible":
-		for i := range M {
-			for j := range M[i] {
-				M[i][j], _ = genBig(t, q, fmt.Sprintf("m%d_%d", i, j))
-			}
-		}
-	}
-	Minv := matInv(M, q)
-	if Minv == nil || isPermMatrix(M) {
-		ev.Case(false, "forged: singular or permutation matrix drawn", "shuffle-forged-skipped")
-		return
-	}
-	ts := make([]*big.Int, k)
-	for j := range ts {
-		ts[j], _ = genBig(t, q, fmt.Sprintf("t%d", j))
-	}
-	// output: Xbar = (M^T)^-1 (X + tG), i.e. Xbar_i = sum_j Minv[j][i] (X_j + t_j G)
-	xb, yb := make([]kyber.Point, k), make([]kyber.Point, k)
-	for i := 0; i < k; i++ {
-		xb[i], yb[i] = nullPoint(e.gi), nullPoint(e.gi)
-		for j := 0; j < k; j++ {
-			c := scalarFromBig(g, Minv[j][i])
-			tj := scalarFromBig(g, ts[j])
-			xb[i] = g.Point().Add(xb[i], g.Point().Mul(c, g.Point().Add(e.X[j], g.Point().Mul(tj, e.G))))
-			yb[i] = g.Point().Add(yb[i], g.Point().Mul(c, g.Point().Add(e.Y[j], g.Point().Mul(tj, e.H))))
-		}
-	}
-	ctx := fmt.Sprintf("forged pair-shuffle transcript %s relation=%s perm=%v a=%d b=%d", e.desc, kind, perm, a, b)
-	st := xofStream(genSeed(t, "forger"))
-	prover := func(pc proof.ProverContext) error {
-		gamma := g.Scalar().Pick(st)
-		tau0 := g.Scalar().Pick(st)
-		w := make([]kyber.Scalar, k)
-		p1 := &fEga1{Gamma: g.Point().Mul(gamma, e.G), Lambda1: g.Point().Mul(g.Scalar().Neg(tau0), e.G), Lambda2: g.Point().Mul(g.Scalar().Neg(tau0), e.H)}
-		for i := 0; i < k; i++ {
-			w[i] = g.Scalar().Pick(st)
-			p1.A = append(p1.A, g.Point().Pick(st))
-			p1.C = append(p1.C, g.Point().Pick(st))
-			p1.U = append(p1.U, g.Point().Pick(st))
-			p1.W = append(p1.W, g.Point().Mul(g.Scalar().Mul(gamma, w[i]), e.G))
-			p1.Lambda1 = g.Point().Add(p1.Lambda1, g.Point().Mul(w[i], xb[i]))
-			p1.Lambda2 = g.Point().Add(p1.Lambda2, g.Point().Mul(w[i], yb[i]))
-		}
-		if err := pc.Put(p1); err != nil {
-			return err
-		}
-		v2 := &fEga2{Zrho: make([]kyber.Scalar, k)}
-		if err := pc.PubRand(v2); err != nil {
-			return err
-		}
-		rho := make([]*big.Int, k)
-		for j := range rho {
-			rho[j] = scalarToBig(v2.Zrho[j])
-		}
-		m := make([]kyber.Scalar, k) // m = M rho
-		p3 := &fEga3{}
-		for i := 0; i < k; i++ {
-			acc := new(big.Int)
-			for j := 0; j < k; j++ {
-				acc.Add(acc, new(big.Int).Mul(M[i][j], rho[j]))
-			}
-			m[i] = scalarFromBig(g, acc.Mod(acc, q))
-			p3.D = append(p3.D, g.Point().Mul(g.Scalar().Mul(gamma, m[i]), e.G))
-		}
-		if err := pc.Put(p3); err != nil {
-			return err
-		}
-		v4 := &fEga4{}
-		if err := pc.PubRand(v4); err != nil {
-			return err
-		}
-		p5 := &fEga5{Ztau: g.Scalar().Set(tau0)}
-		for i := 0; i < k; i++ {
-			p5.Zsigma = append(p5.Zsigma, g.Scalar().Add(w[i], m[i]))
-			p5.Ztau = g.Scalar().Add(p5.Ztau, g.Scalar().Mul(v2.Zrho[i], scalarFromBig(g, ts[i])))
-		}
-		if err := pc.Put(p5); err != nil {
-			return err
-		}
-		// an honest simple shuffle on unrelated vectors: y_i = gamma * x_{pi(i)}
-		x := make([]kyber.Scalar, k)
-		y := make([]kyber.Scalar, k)
-		for i := range x {
-			x[i] = g.Scalar().Pick(st)
-		}
-		for i := range y {
-			y[i] = g.Scalar().Mul(gamma, x[perm[i]])
-		}
-		ss := shuffle.SimpleShuffle{}
-		ss.Init(g, k)
-		return ss.Prove(e.G, gamma, x, y, st, pc)
-	}
-	var prf []byte
-	var err error
-	if pn := safely(func() { prf, err = proof.HashProve(e.suite, "PairShuffle", prover) }); pn != "" || err != nil {
-		t.Fatalf("harness: the forging prover failed: %v %s", err, pn)
-	}
-	verr, pn := pairVerify(e, e.G, e.H, e.X, e.Y, xb, yb, prf)
-	if pn != "" {
-		violationOrKnown(t, ev, "C04/shuffle/"+e.gi.Name+"/verify-panic", "verifier panicked on a forged transcript: %s\n%s", pn, ctx)
-	} else if verr == nil {
-		violationOrKnown(t, ev, "C15/pair/"+e.gi.Name+"/forged-transcript-accepted", "the verifier accepts a forged proof for an output that is a %s of the input ciphertexts, not a permutation of re-encryptions\n%s", kind, ctx)
-	}
-	ev.Case(true, ctx, "shuffle-forged:"+kind, "shuffle-pair:"+e.gi.Name)
-}
-
 // ------------------------------------------------------------------ Shuffle, SequencesShuffle, Biffle
 
 func c15Others(t *rapid.T, ev *evProp) {
